@@ -189,17 +189,27 @@ def eval_case(case):
         from formak import runtime
         fails = []
         n = 0
-        for rs in (None, [], [runtime.StampedReading(0.1, "a", _data="z")]):
+        combos = []
+        for out in (0.2, 0.0, -0.1, 5e-10):  # later, equal to the held time, earlier, within the time resolution
+            combos.append((out, None))
+            combos.append((out, []))
+            for rt in (0.1, 0.0, -0.1):
+                combos.append((out, [(rt, "a")]))
+            combos.append((out, [(0.0, "a"), (0.0, "b")]))
+            combos.append((out, [(0.0, "n"), (0.1, "a")]))
+        for out, spec in combos:
+            rs = None if spec is None else [runtime.StampedReading(rt, key, _data="z") for rt, key in spec]
             impl = Symbolic(H, 1)
             mf = runtime.ManagedFilter(impl, 0.0, ("init", 0), ("init", 0))
             n += 1
             try:
-                mf.tick(0.2, readings=rs) if rs is not None else mf.tick(0.2)
-                fails.append({"key": "control-model-ticked-without-control:py", "what": f"tick without control accepted for a "
-                              f"model with controls (readings={rs}); calls {impl.calls}"})
+                mf.tick(out, readings=rs) if rs is not None else mf.tick(out)
+                fails.append({"key": "control-model-ticked-without-control:py", "what": f"tick(output={out}) without control accepted for a "
+                              f"model with controls (readings={spec}, held time 0.0); calls {impl.calls}"})
             except TypeError:
-                if impl.calls:
-                    fails.append({"key": "refusal-after-calls:py", "what": f"tick refused only after issuing {impl.calls}"})
+                if impl.calls or mf.current_time != 0.0 or mf.state != ("init", 0):
+                    fails.append({"key": "refusal-after-calls:py", "what": f"tick(output={out}, readings={spec}) refused only after issuing "
+                                  f"{impl.calls} (held time now {mf.current_time})"})
         return {"n": n, "fails": fails, "outcomes": ["refusal-checked"], "sigs": ["py-refuse"]}
 
     t0, ctrl = case["t0"], case["ctrl"]
@@ -243,10 +253,35 @@ def eval_case(case):
         return bad
 
     stt = explore.bfs([((t0, []), "t0")], lambda s: menu, step, check, lambda s: round(s[0] / (H / 2)), case["depth"])
+    # the same first-level ticks with readings given by KEYWORD values: the runtime must build each reading through the
+    # filter's make_reading(sensor_key, **values) and hand exactly that object to sensor_model
+    nkw = 0
+    kwfails = []
+    for ev in menu:
+        if not ev[1]:
+            continue
+        hist1 = [concrete(t0, ev, 0)]
+        try:
+            mf, impl, results = run_history(hist1, t0, ctrl, form="kwargs")
+        except Exception as e:
+            kwfails.append({"key": f"kwargs-reading-raises:{type(e).__name__}:py", "what": f"tick {hist1} with keyword readings raised {e!r}"[:300]})
+            break
+        nkw += 1
+        held_kw, exp_kw = ref_tick(t0, ("init", 0), hist1[0][0], hist1[0][1], ctrl, lambda k, z: ("R", k, (("val", z),)))
+        try:
+            got = drop_small(nf(results[0][0]))
+            ok = same(got, drop_small(exp_kw))
+        except Mismatch:
+            ok = False
+        if not ok:
+            kwfails.append({"key": "kwargs-reading:py", "what": f"tick {hist1} with keyword readings returned {show(got) if 'got' in dir() else '?'}; "
+                            f"fold over make_reading(key, val=...) gives {show(drop_small(exp_kw))}"})
+            break
     fails = [{"key": f["key"], "what": f["what"],
               "replay_case": dict(case, history=[[o, [list(r) for r in rs]] for o, rs in _hist_of(f, t0)])}
              for f in stt.fails]
 
+    fails += kwfails
     # differential: a reading-less tick never changes what later ticks return
     ndiff = 0
     if not fails:
@@ -269,7 +304,7 @@ def eval_case(case):
                     break
     return {"n": stt.transitions + ndiff, "fails": fails[:3],
             "sigs": [f"py:{t0}:{ctrl}:{i}" for i in range(stt.transitions)],
-            "counters": {"states": stt.states, "transitions": stt.transitions, "differential_pairs": ndiff},
+            "counters": {"states": stt.states, "transitions": stt.transitions, "differential_pairs": ndiff, "keyword_reading_ticks": nkw},
             "outcomes": sorted(outcomes) + ["py-explored"],
             "sample": {"runtime": "py", "t0": t0, "control": ctrl, "ticks_per_state": len(menu),
                        "trace": [[o, rs] for o, rs in (stt.sample_traces[0][1:] if stt.sample_traces else [])][:3]}}
